@@ -1,6 +1,7 @@
 package main
 
 import (
+	"database/sql"
 	"database/sql/driver"
 	"errors"
 	"fmt"
@@ -51,6 +52,24 @@ func (c *CText) UnmarshalText(b []byte) error {
 		return errors.New("CText: bad prefix")
 	}
 	c.S = string(b[2:])
+	return nil
+}
+
+// CUuid is internal/testfixtures.CustomType: a [16]byte whose Value is its bytes and whose Scan copies
+// into it (Scan(nil) leaves it alone, so NULL reads as the zero array).
+type CUuid [16]byte
+
+func (u CUuid) Value() (driver.Value, error) { return []byte(u[:]), nil }
+func (u *CUuid) Scan(value interface{}) error {
+	switch value := value.(type) {
+	case nil:
+	case string:
+		copy(u[:], []byte(value))
+	case []byte:
+		copy(u[:], value)
+	default:
+		return fmt.Errorf("cannot convert %v (of type %T) to %T", value, value, u)
+	}
 	return nil
 }
 
@@ -164,6 +183,32 @@ type TMixed struct {
 	Gone    int `sql:"-"`
 }
 
+// TSelf: types that are their own sql.Scanner / driver.Valuer, in pointer and non-pointer columns, and *[]byte.
+type TSelf struct {
+	Id   int64 `sql:",primary"`
+	U    CUuid
+	Up   *CUuid
+	N    sql.NullString
+	Np   *sql.NullString
+	V    CVal
+	Bp   *[]byte
+	Name string
+}
+
+// TJsonWide: json payloads the Coq model does not cover (oracle only, counted as an excluded class).
+type TJsonWide struct {
+	Id int64            `sql:",primary"`
+	S  string           `sql:",json"`
+	F  float64          `sql:",json"`
+	L  []int64          `sql:",json"`
+	M  map[string]int64 `sql:",json"`
+	P  *string          `sql:",json"`
+	St struct {
+		A int
+		B string
+	} `sql:",json"`
+}
+
 type tableInfo struct {
 	name string
 	zero interface{}
@@ -173,7 +218,20 @@ type tableInfo struct {
 var catalogue = []tableInfo{
 	{"ints", TInts{}, nil}, {"uints", TUints{}, nil}, {"floats", TFloats{}, nil}, {"text", TText{}, nil},
 	{"times", TTime{}, nil}, {"implicit", TImplicit{}, nil}, {"tagged", TTagged{}, nil}, {"mixed", TMixed{}, nil},
+	{"self", TSelf{}, nil}, {"self2", TSelf2{}, nil}, {"jsonwide", TJsonWide{}, nil},
 }
+
+// TSelf2 doubles the weight of the self-scanning types in the catalogue (plain copies of the columns).
+type TSelf2 struct {
+	Key string `sql:",primary"`
+	U   CUuid
+	N   sql.NullString
+	V   CVal
+	Vp  *CVal
+}
+
+// oracleOnly tables are run and judged but not compared with the model.
+var oracleOnly = map[string]bool{"jsonwide": true}
 
 func newSchema() *sqlgen.Schema {
 	s := sqlgen.NewSchema()
@@ -185,9 +243,11 @@ func newSchema() *sqlgen.Schema {
 }
 
 var (
-	timeType  = reflect.TypeOf(time.Time{})
-	bytesType = reflect.TypeOf([]byte(nil))
-	cvalType  = reflect.TypeOf(CVal{})
-	cbinType  = reflect.TypeOf(CBin{})
-	ctextType = reflect.TypeOf(CText{})
+	timeType    = reflect.TypeOf(time.Time{})
+	bytesType   = reflect.TypeOf([]byte(nil))
+	cvalType    = reflect.TypeOf(CVal{})
+	cbinType    = reflect.TypeOf(CBin{})
+	ctextType   = reflect.TypeOf(CText{})
+	cuuidType   = reflect.TypeOf(CUuid{})
+	nullStrType = reflect.TypeOf(sql.NullString{})
 )
